@@ -259,22 +259,36 @@ func decodeAll(p *dict.Parser, wire []byte) (fail *ev.Failure, reached bool) {
 		return f, reached
 	}
 	if truncated := hdr != nil && int(hdr.MessageLength) > len(wire); truncated || len(wire) <= 1024 {
-		be := memnet.NewSCTP()
-		be.Feed(memnet.Chunk{Stream: 3, Data: wire})
-		be.FeedEOF()
-		before = totalAlloc()
 		var merr error
-		if f := guard("ReadMessage(SCTP)", func() {
-			var m3 *diam.Message
-			if m3, merr = diam.ReadMessage(diam.NewVerifSCTPConn(be), p); merr == nil && m3 != nil {
-				_, _ = m3.Serialize()
-			}
-		}); f != nil {
+		sctpRead := func() (used uint64, fail *ev.Failure) {
+			be := memnet.NewSCTP()
+			be.Feed(memnet.Chunk{Stream: 3, Data: wire})
+			be.FeedEOF()
+			sc := diam.NewVerifSCTPConn(be)
+			start := totalAlloc()
+			fail = guard("ReadMessage(SCTP)", func() {
+				var m3 *diam.Message
+				if m3, merr = diam.ReadMessage(sc, p); merr == nil && m3 != nil {
+					_, _ = m3.Serialize()
+				}
+			})
+			used = totalAlloc() - start
+			diam.ReleaseVerifSCTPConn(sc) // the hook's registry must not grow with the number of cases
+			return
+		}
+		used, f := sctpRead()
+		if f != nil {
 			return f, reached
 		}
-		if used := totalAlloc() - before; truncated && used > uint64(truncA+truncB*len(wire)) {
-			return ev.Failf("over-allocation", "ReadMessage from a multi-stream (SCTP) reader: a %d-byte input whose header declares %d bytes made it allocate %d bytes (bound %d); error: %v; input starts % x",
-				len(wire), declaredLen(hdr), used, truncA+truncB*len(wire), merr, clip(wire)), reached
+		if bound := uint64(truncA + truncB*len(wire)); truncated && used > bound {
+			// TotalAlloc is process-wide: measure once more before believing it
+			if used2, _ := sctpRead(); used2 < used {
+				used = used2
+			}
+			if used > bound {
+				return ev.Failf("over-allocation", "ReadMessage from a multi-stream (SCTP) reader: a %d-byte input whose header declares %d bytes made it allocate %d bytes (bound %d, measured twice); error: %v; input starts % x",
+					len(wire), declaredLen(hdr), used, bound, merr, clip(wire)), reached
+			}
 		}
 	}
 	// --- the AVP-level entry points on the body
